@@ -99,7 +99,11 @@ def random_case(rng, tier):
         # does): wherever it sends the process, only edges of the graph may be taken
         opts['divert'] = {'site': 'hook:' + rng.choice(DIVERT_HOOKS), 'count': rng.choice([0, 0, 1, 2]),
                           'to': rng.choice(['finished', 'killed', 'excepted', 'waiting', 'running', 'created'])}
-    return {'program': program, 'schedule': schedule, 'opts': common.with_communicator(rng, opts)}
+    case = {'program': program, 'schedule': schedule, 'opts': common.with_communicator(rng, opts)}
+    if rng.random() < 0.1:
+        # a listener fails (a failed assert) inside one of its notifications: that changes nothing about the process
+        case['fault'] = ['listener:' + rng.choice(['finished', 'killed', 'excepted', 'running', 'waiting']), 0]
+    return case
 
 
 def shrink(case):
@@ -179,7 +183,8 @@ class Monitor:
 
 def run(case):
     result = Result()
-    engine = common.new_engine(case, record_hooks=False)
+    engine = common.new_engine(case, record_hooks=False, fault=case.get('fault'))
+    engine.world.assertion_faults = True
     try:
         if not engine.start():
             raise RuntimeError(f'construction failed: {engine.construct_error!r}')
